@@ -320,8 +320,19 @@ class Interp:
     def _assign(self, t: ast.AST, v, env, f) -> None:
         if isinstance(t, ast.Name):
             env[t.id] = v
-        elif isinstance(t, (ast.Tuple, ast.List)) and isinstance(v, Tup) and len(v.items) == len(t.elts):
+        elif isinstance(t, (ast.Tuple, ast.List)) and isinstance(v, Tup) and len(v.items) == len(t.elts) \
+                and not any(isinstance(e, ast.Starred) for e in t.elts):
             for e, x in zip(t.elts, v.items):
+                self._assign(e, x, env, f)
+        elif isinstance(t, (ast.Tuple, ast.List)) and isinstance(v, Tup) and sum(isinstance(e, ast.Starred) for e in t.elts) == 1 \
+                and len(v.items) >= len(t.elts) - 1:
+            k = next(i for i, e in enumerate(t.elts) if isinstance(e, ast.Starred))
+            after = len(t.elts) - k - 1
+            items = list(v.items)
+            for e, x in zip(t.elts[:k], items[:k]):
+                self._assign(e, x, env, f)
+            self._assign(t.elts[k].value, Tup(tuple(items[k:len(items) - after])), env, f)
+            for e, x in zip(t.elts[k + 1:], items[len(items) - after:]):
                 self._assign(e, x, env, f)
         elif isinstance(t, ast.Attribute) and isinstance(self.ev(t.value, env, f), Obj):
             self.ev(t.value, env, f).fields[t.attr] = v
@@ -416,6 +427,30 @@ class Interp:
 
     def _e_Lambda(self, e, env, f):
         return Closure(e, env)
+
+    def _comp(self, e, env, f):
+        """Comprehension over tuples of abstract values: evaluated eagerly (the element expressions of the evaluated subset
+        have no effects), filters applied."""
+        out = []
+
+        def rec(i, env2):
+            if i == len(e.generators):
+                out.append(self.ev(e.elt, env2, f))
+                return
+            g = e.generators[i]
+            seq = self.ev(g.iter, env2, f)
+            if not isinstance(seq, Tup):
+                raise AnalysisError(f"abstract evaluator: comprehension over {seq!r} at line {e.lineno}")
+            for x in seq.items:
+                env3 = dict(env2)
+                self._assign(g.target, x, env3, f)
+                if all(self.truth(self.ev(c, env3, f), c) for c in g.ifs):
+                    rec(i + 1, env3)
+        rec(0, env)
+        return Tup(tuple(out))
+
+    _e_GeneratorExp = _comp
+    _e_ListComp = _comp
 
     def _e_UnaryOp(self, e, env, f):
         if isinstance(e.op, ast.Not):
@@ -532,6 +567,32 @@ class Interp:
             return NONE
         if name == "type" and len(e.args) == 1:
             return Cls(self.tag_of(self.ev(e.args[0], env, f)))
+        if name == "getattr" and len(e.args) in (2, 3):
+            attr = self.ev(e.args[1], env, f)
+            if not (isinstance(attr, Const) and isinstance(attr.v, str)):
+                raise AnalysisError(f"abstract evaluator: getattr with a computed name `{short(e)}`")
+            fake = ast.Attribute(value=e.args[0], attr=attr.v, ctx=ast.Load())
+            ast.copy_location(fake, e)
+            return self.ev(fake, env, f)
+        if name == "next" and len(e.args) in (1, 2):
+            seq = self.ev(e.args[0], env, f)
+            if not isinstance(seq, Tup):
+                raise AnalysisError(f"abstract evaluator: next() over {seq!r}")
+            if seq.items:
+                return seq.items[0]
+            if len(e.args) == 2:
+                return self.ev(e.args[1], env, f)
+            raise Raised("StopIteration")
+        if name in ("any", "all") and len(e.args) == 1:
+            seq = self.ev(e.args[0], env, f)
+            if not isinstance(seq, Tup):
+                raise AnalysisError(f"abstract evaluator: {name}() over {seq!r}")
+            vals = [self.truth(x, e) for x in seq.items]
+            return Const(any(vals) if name == "any" else all(vals))
+        if name in ("tuple", "list") and len(e.args) == 1:
+            seq = self.ev(e.args[0], env, f)
+            if isinstance(seq, Tup):
+                return seq
         if name in ("isinstance", "issubclass", "b_isinstance") and len(e.args) == 2:
             x = self.ev(e.args[0], env, f)
             c = self.ev(e.args[1], env, f)
